@@ -11,7 +11,7 @@ VARIABLES lines, st, pos
 vars == <<lines, st, pos>>
 Terms == {"CRLF", "LF", "CR"}
 \* wire text of a line kind
-Text(k) == CASE k = "id1" -> "id: 1" [] k = "id2" -> "id:2" [] k = "ev" -> "event: tick" [] k = "d1" -> "data: one"
+Text(k) == CASE k = "id1" -> "id: 1" [] k = "id2" -> "id:2" [] k = "id0" -> "id:" [] k = "id0n" -> "id" [] k = "ev" -> "event: tick" [] k = "d1" -> "data: one"
              [] k = "d2" -> "data:two" [] k = "dsp" -> "data:  lead" [] k = "dnone" -> "data" [] k = "r5" -> "retry: 5000"
              [] k = "rbad" -> "retry: 1x" [] k = "cmt" -> ": note" [] k = "unk" -> "foo: bar" [] k = "blank" -> ""
 New == [data |-> <<>>, hasdata |-> FALSE, name |-> "", id |-> "None", leid |-> "None", retry |-> -1, events |-> <<>>]
@@ -23,6 +23,7 @@ Apply(s, k) ==
                       ELSE [s EXCEPT !.data = <<>>, !.hasdata = FALSE, !.name = ""]
     [] k = "id1" -> [s EXCEPT !.id = "1", !.leid = "1"]
     [] k = "id2" -> [s EXCEPT !.id = "2", !.leid = "2"]
+    [] k \in {"id0", "id0n"} -> [s EXCEPT !.id = "", !.leid = ""]           \* an empty id resets the last event id to the empty string
     [] k = "ev" -> [s EXCEPT !.name = "tick"]
     [] k = "d1" -> [s EXCEPT !.data = Append(@, "one"), !.hasdata = TRUE]
     [] k = "d2" -> [s EXCEPT !.data = Append(@, "two"), !.hasdata = TRUE]
